@@ -14,7 +14,7 @@ RULE = ("every assignment (base, lcas[0..k], other, this) over a D-element domai
 CASES = {"quick": 32, "thorough": 64}
 BUDGET_S = {"quick": 60, "thorough": 900}
 MIN_EVALS = {"quick": 40000, "thorough": 900000}
-FLOORS = {"law_S_three_way": 1000, "law_S_lca": 1000, "law_L": 100, "law_U": 1000}
+FLOORS = {"law_S_three_way": 1000, "law_S_lca": 1000, "law_L": 100, "law_L_lcas_identical": 300, "law_U": 1000}
 EXHAUSTIVE = {"quick": True, "thorough": True}
 ASSUMPTIONS = ["values compared with == only (domain of small ints stands for any equality-comparable values)",
                "documented tie-break: other == this => 'this' in both orders"]
@@ -54,6 +54,12 @@ def laws(ctx, three_way, lca, b, lcas, o, t, allow):
     if all(v == b for v in lcas):
         ctx.count("law_L")
         ctx.check(q == r, "lca:differs-from-three-way-when-uniform", "lca=%s three_way=%s" % (q, r), d)
+    if lcas and all(v == lcas[0] for v in lcas):
+        # the statement's "all ancestors carry the same value" in the reading of the function's own docstring ("if LCAs
+        # are all identical, same as _three_way"): the common value takes the place of the base, whatever base_val is
+        ctx.count("law_L_lcas_identical")
+        r3 = three_way(lcas[0], o, t)
+        ctx.check(q == r3, "lca:differs-from-three-way-when-lcas-identical", "lca=%s three_way(lca value)=%s" % (q, r3), d)
     anc = set(lcas)
     anc.add(b)
     if t in anc and o not in anc:
